@@ -90,8 +90,16 @@ class JSONField(ABC):
         d = json.loads(json_string)
         ret = cls()
         # we make constructing from JSON more forgiving to allow some limited
-        # forward compatibility, in case the fields change
-        ret._set_fields(forgiving=True, **d)
+        # forward compatibility, in case the fields change: a key that is not a field
+        # of this class is skipped before its value is looked at (the per-value type
+        # assertions of _set_fields only make sense for known fields)
+        known = dict()
+        for k, v in d.items():
+            if k in ret.__dict__:
+                known[k] = v
+            else:
+                fl.get_logger().warning(f"Ignoring unknown field {k} of {cls.__name__}")
+        ret._set_fields(forgiving=True, **known)
         return ret
 
     def to_dict(self) -> Dict[str, str] or None:
